@@ -6,6 +6,21 @@ import os
 ROOT = os.path.dirname(os.path.dirname(os.path.abspath(__file__)))
 
 CHECKS = {
+    "C13": {
+        "text": "Proof (Coq, closed under the global context): the verifier (listing + sequential inspection, transcribed) accepts "
+                "exactly the storages satisfying a declarative Healthy predicate written without reference to its traversal; a "
+                "publishing run from healthy groups yields healthy groups (given what C02 provides and outside the open finding "
+                "F3, which is refuted by a witness on the faithful model); failing and killed runs keep all groups healthy; the "
+                "age alarm is raised iff no backup or age >= threshold, empty trailing groups skipped; duration = number x unit. "
+                "Tied to the code by writing healthy histories and every manifest-level corruption with the independent encoder, "
+                "verifying them through the real public Storage API and comparing with the extracted model; the real "
+                "check_backups is run under a fake clock at threshold -1 s / 0 / +1 s for m/h/d.",
+        "note": "Names are classified (day numbers, hash ids) in the model; the regex crate and chrono name parsing are trusted. "
+                "Open known finding F3 (empty group left by a failed run, reused on a later date) is reported as KNOWN-FINDING when "
+                "a history of that class is exercised. Histories of real failing / killed runs belong to the run driver.",
+        "technique": "Coq proof (executable verifier <-> declarative predicate; run invariants) + differential correspondence on corrupted storages",
+        "design": "7/C13",
+    },
     "C11": {
         "text": "Proof (Coq, closed under the global context) on an executable Layer-A model of RestorePlan + Restorer: for "
                 "ARBITRARY storages (any manifests, any archives), ok = true at the end implies every manifest line of the target "
